@@ -14,6 +14,7 @@ import hashlib
 import importlib
 import json
 import os
+import shutil
 import random
 import re
 import subprocess
@@ -321,6 +322,8 @@ class Ctx:
         self.prop, self.tier, self.seed, self.replay = prop, tier, seed, replay
         self.rng = random.Random(seed)
         self.dir = os.path.join(BUILD, prop)
+        # generated case files of earlier runs are not kept (a thorough run writes thousands of shards)
+        shutil.rmtree(os.path.join(self.dir, "cases"), ignore_errors=True)
         os.makedirs(os.path.join(self.dir, "cases"), exist_ok=True)
         self.mismatches = []      # model vs implementation differences
         self.violations = []      # oracle verdicts: dicts {sig, what, case}
@@ -477,7 +480,8 @@ def run_check(prop, tier, seed, replay=None):
         broken.append(("hygiene", h))
     closed, axioms, pa_out = 0, [], ""
     if ok:
-        pa_ok, closed, axioms, pa_out = print_assumptions(prop, log)
+        with Lock(False):        # nobody rebuilds the tree while this file is re-read against it
+            pa_ok, closed, axioms, pa_out = print_assumptions(prop, log)
         if not pa_ok:
             broken.append(("proof", "Props/%s.v does not recompile" % prop))
         for a in axioms:
